@@ -754,15 +754,38 @@ pub fn gen_c20(cx: &mut Ctx) {
     let universe = names(&["a", "b", "c", "d"]);
     let mut calls: Vec<(String, Vec<Arg>)> = vec![];
     let mut rng = Rng::new(20200);
-    for _ in 0..cx.scale * if cx.thorough { 3000 } else { 600 } {
+    let wide = names(&["k", "p1", "p2", "q", "r_1", "s", "t9", "u", "w"]);
+    for round in 0..cx.scale * if cx.thorough { 3000 } else { 600 } {
         let kind = rng.below(3);
-        let na = random_subset(&mut rng, &universe, 4);
+        // every sixth round works over nine names (hash orders of larger sets differ far more often)
+        let big = round % 6 == 5;
+        let universe = if big { wide.clone() } else { universe.clone() };
+        let na = if big { let mut x = random_subset(&mut rng, &universe, 9); if x.len() < 6 { x = universe.clone(); } x } else { random_subset(&mut rng, &universe, 4) };
         let ba = random_bits(&mut rng, na.len());
         let x = fn_as(kind, &na, &ba);
         let nb = random_subset(&mut rng, &universe, 3);
         let bb = random_bits(&mut rng, nb.len());
         let y = fn_as(kind, &nb, &bb);
         let vs: BTreeSet<String> = universe.iter().filter(|_| rng.below(3) == 0).take(if kind == 0 { 1 } else { 4 }).cloned().collect();
+        // operations the other families do not reach: normal forms and the parser on a random tree,
+        // implication, the remaining conversions, CSV and rendering
+        let tree = random_tree(&mut rng, if big { 5 } else { 3 }, &universe, false, 1);
+        if tree.to_string().len() < 600 {
+            calls.push((s(*rng.pick(&["nnf", "cnf", "dnf"])), vec![Arg::F(Val::E(tree.clone()))]));
+            calls.push((s("parse"), vec![Arg::X(tree.to_string())]));
+            calls.push((s("essential"), vec![Arg::F(Val::E(tree.clone()))]));
+        }
+        calls.push((s("implied"), vec![Arg::F(x.clone()), Arg::F(y.clone())]));
+        if kind == 1 {
+            calls.push((s("conv.TE"), vec![Arg::F(x.clone())]));
+            calls.push((s("csv.to"), vec![Arg::F(x.clone()), Arg::A(s("Word")), Arg::A(s("Number"))]));
+            if !big {
+                calls.push((s("render"), vec![Arg::F(x.clone()), Arg::A(s(*rng.pick(&["Ascii", "Modern", "Markdown", "Empty"]))), Arg::A(s("Character")), Arg::A(s("CapitalizedWord"))]));
+            }
+        }
+        if kind == 0 && !big {
+            calls.push((s("conv.ET"), vec![Arg::F(x.clone())]));
+        }
         let mut v = BTreeMap::new();
         for n in &universe {
             if rng.below(3) == 0 {
